@@ -7,7 +7,7 @@ PROPERTY = "C03"
 LEVEL = "exploration"
 RULE = (
     "case = (text, dialect[, templater, template_blocks_indent]) from every dialect fixture (each dialect grammar is a separate program), "
-    "3 seeded mutants per fixture, hostile strings and generated Jinja templates; oracle walks every node of the returned tree: span = hull of "
+    "2 seeded mutants per fixture, hostile strings and generated Jinja templates; oracle walks every node of the returned tree: span = hull of "
     "children, child order, non-code ends, running indent balance >= 0 and 0 at EOF; distinct = content hash; non-trivial = tree with >= 3 leaves"
 )
 ASSUMPTIONS = ["'positional order' is checked on rendered-side start offsets", "file and unparsable nodes may start/end with non-code (as the statement says)"]
@@ -18,7 +18,7 @@ FOUR = ("ansi", "postgres", "tsql", "bigquery")
 
 
 def universe():
-    u = common.fx_cases(20000) + common.mx_cases(3, 8000, start=3) + common.hs_cases(every=3)
+    u = common.fx_cases(20000) + common.mx_cases(2, 6000, start=3) + common.hs_cases(every=3)
     jj = common.jj_cases(900, "lintable", FOUR) + common.jj_cases(500, "hostile", FOUR)
     for i, c in enumerate(jj):
         mode = ("default", "force", "off")[i % 3]
